@@ -20,7 +20,7 @@ EXPLANATION = (
     "name - R8 - are followed to their consumer).")
 ASSUMPTIONS = ["program_options::variables_map::count(k) > 0 iff option k was given", "${ENV:default} placeholders in the default ini are expanded by the ini module from the environment"]
 THOROUGH_CONFIGS = [["-UNDEBUG", "-DPIKA_DEBUG"]]
-FLOORS = {"C16.R11": 1, "C16.R12": 10, "C16.R1": 11, "C16.R2": 10, "C16.R3": 8, "C16.R4": 3, "C16.R6": 1, "C16.R7": 1, "C16.R8": 1, "C16.R9": 8, "C16.R10": 1, "C16.R13": 5, "C16.R14": 12, "C16.R15": 1, "C16.R16": 6, "C16.R17": 3, "C16.R18": 7}
+FLOORS = {"C16.R11": 1, "C16.R12": 10, "C16.R1": 11, "C16.R2": 10, "C16.R3": 8, "C16.R4": 3, "C16.R6": 1, "C16.R7": 1, "C16.R8": 1, "C16.R9": 8, "C16.R10": 1, "C16.R13": 5, "C16.R14": 11, "C16.R15": 1, "C16.R16": 6, "C16.R17": 3, "C16.R18": 7}
 
 SETTINGS = [  # (command line option, ini key, environment variable, handler)
     ("pika:threads", "pika.os_threads", "PIKA_THREADS", "handle_num_threads"),
@@ -845,6 +845,10 @@ def run(rep, tier):
             base = T(strip(ev["args"][2]))
         elif re.match(r"^sto", cs) and len(ev.get("args", [])) >= 3:
             base = T(strip(ev["args"][2]))
+        if base is not None and re.match(r"^[A-Za-z_]\w*$", base):          # a named constant for the base
+            for _, _, x in iss.all_events():
+                if x.get("k") == "decl" and x.get("var") == base and x.get("init") is not None:
+                    base = T(strip(x["init"]))
         accepts_hex = base in ("0", "16")
         if not hexy or accepts_hex:
             rep.ok("C16.R5", iss, "init_stack_size parses with %s(base %s): reads the %d hexadecimal defaults the configuration writes" % (cs, base, len(hexy)), sites=len(hexy))
